@@ -97,6 +97,7 @@ type Case struct {
 	KeepDerived  bool         `json:"keep_derived,omitempty"`
 	Pkg2         []FileSpec        `json:"pkg2,omitempty"` // files of a second package q processed by the same invocation (goderive ./p ./q)
 	ExtraCalls   []CallSpec        `json:"extra_calls,omitempty"` // derive calls written in raw Extra files of package p (for the clash oracle only)
+	GenHeader    bool              `json:"gen_header,omitempty"` // the user files start with a "Code generated … DO NOT EDIT." line (they are still the user's: calls are renamed in them)
 	ExtraFixed   bool              `json:"extra_fixed,omitempty"` // the raw Extra files of package p hold no derive call: a run must leave them as they are
 	NoModel      bool              `json:"no_model,omitempty"` // multi-pass / multi-package cases: no regall line of the Lean model
 	Extra        map[string]string `json:"extra,omitempty"` // further files of the module (path relative to the module root): imported packages
@@ -277,6 +278,9 @@ func (c *Case) render(pkg string, files []FileSpec) map[string]string {
 	n := 0
 	for fi, f := range files {
 		var sb strings.Builder
+		if c.GenHeader {
+			sb.WriteString("// Code generated by sometool. DO NOT EDIT.\n\n")
+		}
 		sb.WriteString("package " + pkg + "\n\n")
 		imps := map[string]bool{}
 		for _, call := range f.Calls {
